@@ -15,6 +15,7 @@ import (
 	dc "github.com/hujm2023/go-sms-protocol/datacoding"
 	"pgregory.net/rapid"
 
+	"verifharness/gen"
 	"verifharness/ref"
 	"verifharness/vk"
 )
@@ -22,6 +23,7 @@ import (
 var rec = vk.NewRecorder("C05")
 
 func TestMain(m *testing.M) {
+	vk.Disturb = gen.Disturb
 	code := m.Run()
 	rec.Flush("all")
 	os.Exit(code)
